@@ -824,6 +824,10 @@ class Interp:
                     return K(len(a.v))
                 except Exception:
                     pass
+            if isinstance(a, NodeList):
+                # the same abstract length the loop over this list unrolls to (equal label =>
+                # equal choice): `len(node.items) == 1` cannot hold on the zero-iteration path
+                return K(self.o.choose(f"len({self.label(a)})", self.loop_max + 1))
             return U(f"len({self.label(a)})", "int")
         if fsrc == "repr":
             return S(self.fmt(args[0], True, self.src(e.args[0])))
@@ -1136,6 +1140,7 @@ class Interp:
 # ------------------------------------------------------------------------- model
 class EmitModel:
     def __init__(self, repo: Repo, gen_class: str = "compiler:CodeGenerator") -> None:
+        repo = getattr(repo, "raw", repo)  # the interpreter reads the code as written
         self.repo = repo
         self.cls = repo.cls(gen_class)
         self.mro = repo.mro(self.cls)
